@@ -878,25 +878,64 @@ Qed.
 (* services that ask the limiter only after they have reported (counterstrike, snmp) or not at
    all (dns): the events of ANY sequence of datagrams from one source are those of the
    datagrams, whatever the token count *)
+Lemma udp_seq_independent_st svc :
+  svc <> SVC_TFTP -> svc <> SVC_MEMCACHED_UDP ->
+  (forall d, run_impl svc [d] = expected svc d) ->
+  forall ds t st, udp_seq_st svc t st ds = udp_seq_expected_st svc st ds.
+Proof.
+  intros H1 H2 Hd.
+  assert (B1 : beq svc SVC_TFTP = false) by (unfold beq; apply N.eqb_neq; exact H1).
+  assert (B2 : beq svc SVC_MEMCACHED_UDP = false) by (unfold beq; apply N.eqb_neq; exact H2).
+  induction ds as [|d r IH]; intros t st; cbn [udp_seq_st udp_seq_expected_st]; [reflexivity|].
+  unfold udp_one. rewrite !B1, B2.
+  rewrite Hd. destruct (expected svc d) as [es c]. rewrite IH.
+  destruct (udp_seq_expected_st svc st r) as [es2 c2]. reflexivity.
+Qed.
+
 Lemma udp_seq_independent svc :
   svc <> SVC_TFTP -> svc <> SVC_MEMCACHED_UDP ->
   (forall d, run_impl svc [d] = expected svc d) ->
   forall ds t, udp_seq svc t ds = udp_seq_expected svc ds.
-Proof.
-  intros H1 H2 Hd. induction ds as [|d r IH]; intros t; cbn [udp_seq udp_seq_expected]; [reflexivity|].
-  unfold udp_one. apply N.eqb_neq in H1. apply N.eqb_neq in H2. unfold beq at 1 2. rewrite H1, H2.
-  rewrite Hd. destruct (expected svc d) as [es c]. rewrite IH. reflexivity.
-Qed.
+Proof. intros H1 H2 Hd ds t. apply udp_seq_independent_st; assumption. Qed.
 
-(* tftp asks the limiter before it decodes: within the budget every datagram is reported *)
-Lemma tftp_within_budget ds : forall t, length ds <= t -> udp_seq SVC_TFTP t ds = udp_seq_expected SVC_TFTP ds.
+(* tftp asks the limiter before it decodes: within the budget every datagram is reported, and
+   every finished upload with the filename, mode and content of ITS transfer *)
+Lemma tftp_within_budget_st ds : forall t st,
+  length ds <= t -> udp_seq_st SVC_TFTP t st ds = udp_seq_expected_st SVC_TFTP st ds.
 Proof.
-  induction ds as [|d r IH]; intros t Hl; cbn [udp_seq udp_seq_expected]; [reflexivity|].
+  induction ds as [|d r IH]; intros t st Hl; cbn [udp_seq_st udp_seq_expected_st]; [reflexivity|].
   cbn [length] in Hl. destruct t as [|t']; [lia|].
-  change (udp_one SVC_TFTP (S t') d) with (let '(es, c) := seg_obs (tftp_prog false) [d] in (es, c, t')).
+  change (udp_one SVC_TFTP (S t') st d) with
+    (let '(es, c) := seg_obs (tftp_prog false) [d] in
+     let '(st', fe) := tftp_transfer st d in (es ++ fe, c, t', st')).
+  change (beq SVC_TFTP SVC_TFTP) with true. cbv beta iota.
   pose proof (tftp_datagram d) as Hd. unfold run_impl in Hd.
   change (impl_prog SVC_TFTP (fuel_for (concat [d]))) with (tftp_prog false) in Hd. rewrite Hd.
-  destruct (expected SVC_TFTP d) as [es c]. rewrite IH by lia. reflexivity.
+  destruct (expected SVC_TFTP d) as [es c]. destruct (tftp_transfer st d) as [st' fe].
+  rewrite IH by lia. destruct (udp_seq_expected_st SVC_TFTP st' r) as [es2 c2].
+  rewrite <- app_assoc. reflexivity.
+Qed.
+
+Lemma tftp_within_budget ds : forall t, length ds <= t -> udp_seq SVC_TFTP t ds = udp_seq_expected SVC_TFTP ds.
+Proof. intros t H. apply tftp_within_budget_st. exact H. Qed.
+
+(* an upload is reported with the name and mode of ITS write request: a second WRQ replaces
+   the open upload, whatever was received before *)
+Lemma tftp_wrq_replaces st fname mode rest r2 tail :
+  split_delim 0%N rest = Some (fname, r2) -> split_delim 0%N r2 = Some (mode, tail) ->
+  forall a, tftp_transfer st (a :: 2%N :: rest) = (Some (fname, mode, []), []).
+Proof. intros H1 H2 a. unfold tftp_transfer. change (beq 2%N 2%N) with true. cbv beta iota. rewrite H1, H2. reflexivity. Qed.
+
+(* the last (short) DATA block reports exactly what the open upload holds plus this block *)
+Lemma tftp_last_block fname mode content a blk data :
+  length data < 512 -> length blk = 2 ->
+  tftp_transfer (Some (fname, mode, content)) (a :: 3%N :: blk ++ data) =
+  (None, [mkEv EV_TFTP_FILE [fname; mode; content ++ data]]).
+Proof.
+  intros Hd Hb. unfold tftp_transfer. change (beq 3%N 2%N) with false. change (beq 3%N 3%N) with true.
+  cbv beta iota. destruct blk as [|b1 [|b2 [|x r]]]; cbn [length] in Hb; try lia.
+  cbn [app skipn]. rewrite firstn_all2 by lia.
+  assert (E : (length data =? 512) = false) by (apply Nat.eqb_neq; lia). rewrite E. reflexivity.
 Qed.
 
 (* ... and beyond it nothing is: five read requests from one source, four events *)
